@@ -794,3 +794,16 @@ def scratch(model):
         ns.update(REBINDS)
     S.loops_rewritten = [x for tr in trs.values() for x in tr[0].rewritten]
     return S
+
+
+def guard(*outcomes):
+    """an execution on teams of symbolic size that ends in an exception is outside the rule: the proxies of
+    a team do not support every operation a list supports (a modulo on the member index, a slice), so an
+    exception here may be the engine's, not the code's.  Whether the code raises is decided on the listed
+    team sizes; the for-every-size proof is not attempted."""
+    for o in outcomes:
+        if isinstance(o, tuple) and len(o) == 2 and o[0] == "raise":
+            if isinstance(o[1], UncutLoop):
+                raise o[1]
+            raise UncutLoop(f"the execution on a team of symbolic size raised {type(o[1]).__name__}: {str(o[1])[:120]}")
+    return outcomes[0] if len(outcomes) == 1 else outcomes
